@@ -230,6 +230,7 @@ def workloads():
                               {"a": "atime", "k": 3, "t": 3000},
                               {"a": "reduce", "items_limit": 1, "evicts": [1, 2]}]), 1)
     w["memory_clear"] = ([S(1, [C(1), C(2)])], S(1, [{"a": "clear"}, C(1)]), 1)
+    w["memory_clear_same_process"] = ([], S(1, [C(1), {"a": "clear"}, C(1)]), 1)
     w["func_clear"] = ([S(1, [C(1), C(2)])], S(1, [{"a": "fclear"}, C(2)]), 1)
     return w
 
@@ -528,8 +529,8 @@ def run(ctx):
     ctx.finish({
         "evaluations": n_crash + len(done),
         "distinct_nontrivial": len(nontrivial),
-        "rule": "11 workloads (cold, warm same/fresh process, source change, expires_after invalid/valid, call_and_shelve, "
-                "compress=True, reduce_size, Memory.clear, MemorizedFunc.clear); the child is killed before EVERY mutating "
+        "rule": "12 workloads (cold, warm same/fresh process, source change, expires_after invalid/valid, call_and_shelve, "
+                "compress=True, reduce_size, Memory.clear in a fresh and in the writing process, MemorizedFunc.clear); the child is killed before EVERY mutating "
                 "operation index of the workload trace, plus torn prefixes {1, n/2, n-1, header boundaries of func_code.py} of every "
                 "write, plus after the last operation; recovery = fresh interpreter calling keys 1,2,3. non-trivial = the child "
                 "really died at that point; distinct by (workload, index, torn prefix)",
